@@ -81,10 +81,14 @@ pub fn ip_tcp_tweak() -> impl Strategy<Value = IpTweak> {
 }
 
 pub fn case_strategy() -> impl Strategy<Value = Case> {
-    scenario_quiet(Fam::Any).prop_flat_map(|scn| {
-        let v4 = scn.net.is_v4();
-        let csum = prop_oneof![5 => Just(None), 1 => prop::sample::select(vec![0u16, 0xffff, 0xdead, 1]).prop_map(Some), 1 => any::<u16>().prop_map(Some)];
-        (Just(scn), prop_oneof![2 => Just(vec![]), 1 => vec(step_leaf(), 0..=6)], req(v4), csum, prop::option::weighted(0.15, mac_unicast()), prop::option::weighted(0.35, ip_tweak()), prop::option::weighted(0.3, (ip4_options(), prop_oneof![1 => Just(Hex(vec![])), 3 => tcp_options()])), (prop::bool::weighted(0.04), prop::option::weighted(0.04, vlan_tags()), prop::option::weighted(0.25, prop_oneof![2 => app_req().prop_map(Pay::App), 2 => stun_req_magic_big().prop_map(|r| Pay::App(AppReq::Stun(r)))]), prop::option::weighted(0.15, stun_any_type()))).prop_map(|(mut scn, hist, mut req, req_csum, alias_mac, ip_tweak, opts, (self_addressed, vlan, prev, later_stun))| {
+    // the inner strategies are built once (building them compiles regexes) and cloned per case
+    let (r4, r6) = (req(true), req(false));
+    let csum = prop_oneof![5 => Just(None), 1 => prop::sample::select(vec![0u16, 0xffff, 0xdead, 1]).prop_map(Some), 1 => any::<u16>().prop_map(Some)].boxed();
+    let hist = prop_oneof![2 => Just(vec![]), 1 => vec(step_leaf(), 0..=6)].boxed();
+    let rest = (prop::option::weighted(0.15, mac_unicast()), prop::option::weighted(0.35, ip_tweak()), prop::option::weighted(0.3, (ip4_options(), prop_oneof![1 => Just(Hex(vec![])), 3 => tcp_options()])), (prop::bool::weighted(0.04), prop::option::weighted(0.04, vlan_tags()), prop::option::weighted(0.25, prop_oneof![2 => app_req().prop_map(Pay::App), 2 => stun_req_magic_big().prop_map(|r| Pay::App(AppReq::Stun(r)))]), prop::option::weighted(0.15, stun_any_type()))).boxed();
+    scenario_quiet(Fam::Any).prop_flat_map(move |scn| {
+        let r = if scn.net.is_v4() { r4.clone() } else { r6.clone() };
+        (Just(scn), hist.clone(), r, csum.clone(), rest.clone()).prop_map(|(scn, hist, req, req_csum, (alias_mac, ip_tweak, opts, x))| (scn, hist, req, req_csum, alias_mac, ip_tweak, opts, x)).prop_map(|(mut scn, hist, mut req, req_csum, alias_mac, ip_tweak, opts, (self_addressed, vlan, prev, later_stun))| {
             // a later segment of a STUN flow: any STUN message type
             let mut prev = prev;
             if let (Some(ls), Req::TcpData { pay, .. }) = (later_stun, &mut req) {
@@ -256,7 +260,7 @@ impl Prop for C03 {
         "cases = in-scope scenario (MAC, self-IP list, deny list, key; destination MAC drawn from the authorised set) x 0..6 unrelated history steps x one answerable request, optionally with varied IP header fields the responder is not documented to look at (TOS / traffic class, id / flow label, the three IPv4 flag bits with fragment offset 0, TTL / hop limit 1..255), a wrong transport checksum, IPv4 options on echo, a client MAC that is unicast / broadcast / group / zero, an earlier ARP/NS from the client's IP with another MAC (ARP request with sender address = client / target / 0.0.0.0 / other and target hardware address zero / own MAC / broadcast / client's, echo v4/v6 with data 0..1472, neighbour solicitation unicast/solicited-node with NDP options, SYN with PSH/URG/ECE/CWR and payload, handshaken TCP data / UDP carrying an application request of every protocol generator or a hostile STUN TLV list, FIN|ACK; arbitrary addresses and ports incl. 0 and 65535). Oracle: independent decoder; Ethernet/IP/port tuple of the reply is the mirror image of the request's (NS: source = solicited target; STUN change-port: source port = dport+1), buffer is exactly one frame. Non-trivial = a reply exists; distinct by hash of (request, reply)."
     }
     fn run(&self, ctx: &mut RunCtx) {
-        let n = ctx.share(ctx.tier.n(600_000, 10_000_000));
+        let n = ctx.share(ctx.tier.n(2_000_000, 20_000_000));
         ctx.run_generated("mirror", n, case_strategy(), |c, st| check_mode(c, st, &Mode::Mirror));
     }
     fn replay(&self, _stream: &str, case: &Value, st: &mut Stats) -> Check {
@@ -384,7 +388,7 @@ impl Prop for C04 {
         "cases = C03's generator (every answerable request kind x both IP versions x all protocol payloads, odd/even sizes, all-0x00 / all-0xFF echo data 0..1472) plus echo requests up to the largest packet the IP length fields allow (65535) plus a directed zero-checksum construction (a UDP reply's echoed 16-bit word — STUN transaction id, DNS id — chosen so that the true checksum is 0x0000, over IPv4 and IPv6). Oracle: independent decoder and RFC 1071 checksum: IPv4 version/IHL/total length/unfragmented/TTL>=1/header checksum, IPv6 version/payload length/hop limit (255 for NA), ICMP/ICMPv6/TCP/UDP checksums over the correct pseudo-header, UDP length, UDP-over-IPv6 checksum never 0 (over IPv4 a zero field only where the computed checksum is zero), TCP data offset, SYN-ACK window != 0. Non-trivial = a reply exists; distinct by hash of (request, reply)."
     }
     fn run(&self, ctx: &mut RunCtx) {
-        let n = ctx.share(ctx.tier.n(600_000, 10_000_000));
+        let n = ctx.share(ctx.tier.n(2_000_000, 20_000_000));
         ctx.run_generated("wf", n, case_strategy(), |c, st| check_mode(c, st, &Mode::WellFormed));
         let nb = ctx.share(ctx.tier.n(400, 8_000));
         ctx.run_generated(
